@@ -84,6 +84,10 @@ shape = [4, 4], type = oper, isherm = False
         isherm = None
         isunitary = None
     data = _data.diag[dtype](diagonals, offsets, shape)
+    if data.shape[0] != data.shape[1]:
+        # Only square matrices can be Hermitian or unitary.
+        isherm = False
+        isunitary = False
     return Qobj(
         data, copy=False, dtype=dtype,
         dims=dims, isherm=isherm, isunitary=isunitary
@@ -745,7 +749,8 @@ def qzero(
     dims = [dims_left, dims_right]
     # A sparse matrix with no data is equal to a zero matrix.
     return Qobj(_data.zeros[dtype](size_left, size_right), dims=dims,
-                isherm=True, isunitary=False, copy=False, dtype=dtype)
+                isherm=(size_left == size_right), isunitary=False,
+                copy=False, dtype=dtype)
 
 
 def qzero_like(qobj: Qobj) -> Qobj:
@@ -766,7 +771,8 @@ def qzero_like(qobj: Qobj) -> Qobj:
 
     return Qobj(
         _data.zeros[qobj.dtype](*qobj.shape), dims=qobj._dims,
-        isherm=True, isunitary=False, copy=False, dtype=qobj.dtype
+        isherm=(qobj.shape[0] == qobj.shape[1]), isunitary=False,
+        copy=False, dtype=qobj.dtype
     )
 
 
